@@ -16,6 +16,7 @@
 //   {"P":program text, "blocked":bool, "chk":"ok"|<failed replayer-side check>,
 //    "c":[per coroutine {"bind":"gone"|"null"|"root"|"loc"|"other","cnt":{ac,ad,end,lc,ld,run},
 //                        "fut":{st,v},"obj":"none"|"holds"|"empty","seen":{st,v}}],
+//    "cb":{sub,n,alive} callback awaiter subscribed by native code on its future,
 //    "ev":[[c,tag]...], "ext":[state...], "live":frames alive (allocation balance), "ret":{st,v}}
 // join() is executed on a thread managed by the controlled scheduler (cocls_verif/vsched.h): when the
 // body suspends, that thread blocks in sync_awaiter and the scenario continues on the controller thread
@@ -180,6 +181,23 @@ static Res fut_state(cocls::future<T> &f) {
     return r;
 }
 
+// callback awaiter native code subscribes on its future: fires inside future::resolve()
+struct CbAwaiter : cocls::awaiter {
+    bool sub = false;
+    int n = 0;
+    int alive = -1;                 // -1 not fired; 1 / 0: frame of coroutine 1 existed / did not exist when fired
+    bool (*alive_fn)(void *) = nullptr;
+    void *ctx = nullptr;
+    CbAwaiter() { set_resume_fn(&CbAwaiter::fire, this); }
+    static cocls::suspend_point<void> fire(cocls::awaiter *me, void *) noexcept {
+        auto self = static_cast<CbAwaiter *>(me);
+        self->n++;
+        self->sub = false;
+        self->alive = self->alive_fn(self->ctx) ? 1 : 0;
+        return {};
+    }
+};
+
 // ---- the world of one scenario ----------------------------------------------------------------------
 template <typename T> struct World;
 
@@ -228,6 +246,7 @@ struct World {
     alignas(cocls::future<T>) unsigned char rootbuf[sizeof(cocls::future<T>)];
     cocls::future<T> *rootf = nullptr;
     Res ret;
+    CbAwaiter cbaw;
     // accounting
     long base = 0, adj = 0, adj_before_join = 0;
     std::string chk = "ok";
@@ -287,16 +306,24 @@ struct World {
             blocked = false;
         } else blocked = true;
     }
+    void subscribe_cb() {
+        cbaw.ctx = this;
+        cbaw.alive_fn = [](void *c) { return static_cast<World *>(c)->frame_alive(1); };
+        if (rootf->subscribe(&cbaw)) cbaw.sub = true;
+    }
     void root_start() {
         const std::string &m = prog.root;
         if (m == "detach") {
             rootobj->detach();
         } else if (m == "start") {
             rootf = new (rootbuf) cocls::future<T>(rootobj->start());
+            subscribe_cb();
         } else if (m == "fctor") {
             rootf = new (rootbuf) cocls::future<T>(*rootobj);
+            subscribe_cb();
         } else if (m == "retfut") {
             rootf = new (rootbuf) cocls::future<T>(body_fut<T>(*this, 1, Guard<T>(*this, 1)));
+            subscribe_cb();
         } else if (m == "startp" || m == "claimed") {
             rootf = new (rootbuf) cocls::future<T>();
             cocls::promise<T> p = rootf->get_promise();
@@ -305,6 +332,7 @@ struct World {
             }
             bool r = rootobj->start(p);
             ret = Res{r ? S_TRUE : S_FALSE, 0};
+            if (m == "startp") subscribe_cb();
         } else if (m == "join") {
             adj_before_join = adj;
             {
@@ -397,6 +425,9 @@ struct World {
             cl.push(o);
         }
         m.set("c", cl);
+        J cbj = J::map();
+        cbj.set("sub", cbaw.sub); cbj.set("n", cbaw.n); cbj.set("alive", cbaw.alive < 0 ? "none" : cbaw.alive ? "true" : "false");
+        m.set("cb", cbj);
         J ev = J::list();
         for (int i = 0; i < st.nev; i++) { J e = J::list(); e.push(st.ev_c[i]); e.push(std::string(1, st.ev_t[i])); ev.push(e); }
         m.set("ev", ev);
